@@ -575,6 +575,8 @@ impl<W: Write> NcRunner<W> {
                     )
                 });
                 let ok = matches!(r, Ok(Ok(_)));
+                // the protocol id the holder of the token works with (its public part, after tampering)
+                let mut cproto = if gets(st, "proto") == "Q" { "Q" } else { "P" };
                 if let Ok(Ok(mut t)) = r {
                     // single-field tampering of the public part
                     if let Some(m) = st.get("tamper") {
@@ -594,6 +596,13 @@ impl<W: Write> NcRunner<W> {
                             _ => {}
                         }
                     }
+                    cproto = if t.protocol_id == PROTO_P {
+                        "P"
+                    } else if t.protocol_id == PROTO_Q {
+                        "Q"
+                    } else {
+                        "X"
+                    };
                     w.toks.insert(
                         name.clone(),
                         Tok {
@@ -606,7 +615,7 @@ impl<W: Write> NcRunner<W> {
                 let tampered = st.get("tamper").map(|m| gets(m, "field").to_string()).unwrap_or_else(|| "none".into());
                 self.emit(json!({"ev":"token","t":name,"id":getu(st,"id"),"ud":getu(st,"ud"),"hosts":st["hosts"],
                     "create":getu(st,"create_ms")/1000,"expire":getu(st,"create_ms")/1000 + getu(st,"expire_s"),"timeout":geti(st,"timeout_s"),
-                    "sealed":if gets(st,"key")=="F" {"F"} else {"K"},"proto":if gets(st,"proto")=="Q" {"Q"} else {"P"},"tamper":tampered,"ok":ok}));
+                    "sealed":if gets(st,"key")=="F" {"F"} else {"K"},"proto":if gets(st,"proto")=="Q" {"Q"} else {"P"},"cproto":cproto,"tamper":tampered,"ok":ok}));
             }
             "client" => {
                 let name = gets(st, "c").to_string();
@@ -792,6 +801,10 @@ impl<W: Write> NcRunner<W> {
                         d[k] = v.clone();
                     }
                 }
+                // the generator states that this bit flip is one no key binds (the decoder ignores the bit): the datagram is as good as intact
+                if st.get("nonauth") == Some(&json!(false)) && d["label"] == json!("mutated") {
+                    d["benign"] = json!(true);
+                }
                 if st.get("mut").is_some() && (d["label"] == json!("genuine") || d["label"] == json!("replay")) {
                     // the requested mutation did not change the bytes: the generator's verdict does not apply
                     d["nonauth"] = json!(false);
@@ -880,6 +893,10 @@ impl<W: Write> NcRunner<W> {
                     if let Some(v) = st.get(k) {
                         d[k] = v.clone();
                     }
+                }
+                // the generator states that this bit flip is one no key binds (the decoder ignores the bit): the datagram is as good as intact
+                if st.get("nonauth") == Some(&json!(false)) && d["label"] == json!("mutated") {
+                    d["benign"] = json!(true);
                 }
                 if st.get("mut").is_some() && (d["label"] == json!("genuine") || d["label"] == json!("replay")) {
                     d["nonauth"] = json!(false);
